@@ -37,7 +37,7 @@ Definition src2_for_me (v_conditions : pyval) (v_myself : pyval) : pyval :=
    | BErr => PErr
    end).
 
-(* saml2/response.py:AuthnResponse.verify_recipient, lines 1131-1156 *)
+(* saml2/response.py:AuthnResponse.verify_recipient, lines 1138-1163 *)
 Definition src2_verify_recipient (v_self : pyval) (v_recipient : pyval) : pyval :=
   let v__info := PErr in
   (match p2_branch (p2_not (p2_attr v_self "conv_info")) with
@@ -64,7 +64,7 @@ Definition src2_verify_recipient (v_self : pyval) (v_recipient : pyval) : pyval 
    | BErr => PErr
    end).
 
-(* saml2/response.py:AuthnResponse.get_subject, lines 734-792 *)
+(* saml2/response.py:AuthnResponse.get_subject, lines 741-799 *)
 Definition src2_get_subject (attesting_ext : pyval -> pyval -> pyval) (bearer_ext : pyval -> pyval -> pyval) (hok_ext : pyval -> pyval -> pyval) (decrypt_ext : pyval -> pyval -> pyval -> pyval) (nameid_ext : pyval -> pyval) (to_string_ext : pyval -> pyval) (v_self : pyval) (v_keys : pyval) : pyval :=
   let v_subject := PErr in
   let v_subjconf := PErr in
@@ -382,7 +382,7 @@ Definition src2_endpoint (getattr_ext : pyval -> pyval -> pyval -> pyval) (type_
    | BErr => PErr
    end)))))).
 
-(* saml2/client_base.py:Base.service_urls, lines 269-274 *)
+(* saml2/client_base.py:Base.service_urls, lines 277-282 *)
 Definition src2_service_urls (getattr_ext : pyval -> pyval -> pyval -> pyval) (type_ext : pyval -> pyval) (v_self : pyval) (v_binding : pyval) : pyval :=
   let v__res := PErr in
   (py_bind (py_bind v_binding (fun a_1 => (src2_endpoint getattr_ext type_ext (p2_attr v_self "config") (PStr "assertion_consumer_service") a_1 (PStr "sp")))) (fun v__res =>
